@@ -327,10 +327,18 @@ func (fc *followerController) Truncate(req *proto.TruncateRequest) (*proto.Trunc
 	}
 
 	fc.status = proto.ServingStatus_FOLLOWER
-	headOffset, err := fc.wal.TruncateLog(req.HeadEntryId.Offset)
+
+	// The log has to be truncated by entry id (term, offset) and not just by offset: entries of a more
+	// recent term that sit at or below the requested offset are not part of the leader's log either.
+	truncateOffset, err := fc.highestOffsetUpTo(req.HeadEntryId)
+	if err != nil {
+		return nil, errors.Wrap(err, "failed to read the wal")
+	}
+
+	headOffset, err := fc.wal.TruncateLog(truncateOffset)
 	if err != nil {
 		return nil, errors.Wrapf(err, "failed to truncate wal. truncate-offset: %d - wal-last-offset: %d",
-			req.HeadEntryId.Offset, fc.wal.LastOffset())
+			truncateOffset, fc.wal.LastOffset())
 	}
 	fc.lastAppendedOffset = headOffset
 
@@ -340,6 +348,27 @@ func (fc *followerController) Truncate(req *proto.TruncateRequest) (*proto.Trunc
 			Offset: headOffset,
 		},
 	}, nil
+}
+
+// highestOffsetUpTo returns the offset of the last entry in the local log whose id (term, offset) is
+// lower or equal to the given entry id, or InvalidOffset if there is no such entry.
+func (fc *followerController) highestOffsetUpTo(entryId *proto.EntryId) (int64, error) {
+	r, err := fc.wal.NewReverseReader()
+	if err != nil {
+		return wal.InvalidOffset, err
+	}
+	defer r.Close()
+
+	for r.HasNext() {
+		e, err := r.ReadNext()
+		if err != nil {
+			return wal.InvalidOffset, err
+		}
+		if e.Term < entryId.Term || (e.Term == entryId.Term && e.Offset <= entryId.Offset) {
+			return e.Offset, nil
+		}
+	}
+	return wal.InvalidOffset, nil
 }
 
 func (fc *followerController) Replicate(stream proto.OxiaLogReplication_ReplicateServer) error {
